@@ -71,6 +71,14 @@ func main() {
 				}
 			}()
 			p, err := rv.Load(filepath.Join(*repo, def.Module), cfg[0], cfg[1])
+			if err != nil && i > 0 {
+				// an additional build configuration in which the module itself does not type-check
+				// (for instance rueidisprob on 32-bit targets: an untyped constant overflows uint)
+				// has no behaviour to check; it is recorded, the host configuration decides
+				skipped, _ := r.Extra["build_configs_not_building"].([]string)
+				r.Extra["build_configs_not_building"] = append(skipped, cfg[0]+"/"+cfg[1]+": "+err.Error())
+				return
+			}
 			if err != nil {
 				fmt.Println(err)
 				fmt.Printf("VIOLATION property=%s replay=%s reason=checker-error(load)\n", *prop, filepath.Join(*verif, "evidence", "replay", *prop+".json"))
